@@ -273,18 +273,18 @@ static scheduler::ident ID(long long i) { return reinterpret_cast<scheduler::ide
 // protected members are reached through a derived class (no source hooks)
 struct sch_t : scheduler {
     using scheduler::scheduler;
-    const void *cond_addr() const { return &_cond; }
+    const void *cond_addr() const { return &VN_scheduler__cond; }
     std::string dump() {
-        std::lock_guard _(_mx);
+        std::lock_guard _(VN_scheduler__mx);
         std::ostringstream os;
-        os << "n=" << _scheduled.size();
-        for (auto &x : _scheduled)
+        os << "n=" << VN_scheduler__scheduled.size();
+        for (auto &x : VN_scheduler__scheduled)
         {
             // identifiers used by the harness are small numbers; anything else is interval()'s `&tag`
-            auto id = reinterpret_cast<std::uintptr_t>(x._ident);
-            os << " " << ticks(x._tp) << ":";
+            auto id = reinterpret_cast<std::uintptr_t>(x.VN_scheduler_SchItem__ident);
+            os << " " << ticks(x.VN_scheduler_SchItem__tp) << ":";
             if (id < (1u << 20)) os << id; else os << "T";
-            os << ":" << (x._p ? 1 : 0);
+            os << ":" << (x.VN_scheduler_SchItem__p ? 1 : 0);
         }
         return os.str();
     }
@@ -292,7 +292,7 @@ struct sch_t : scheduler {
 
 struct pool_t : thread_pool {
     using thread_pool::thread_pool;
-    const void *mx_addr() const { return &_mx; }
+    const void *mx_addr() const { return &VN_thread_pool__mx; }
 };
 
 static std::string tstr(vclock::time_point tp) {
